@@ -182,3 +182,34 @@ Proof.
     subst rest. rewrite (IH (pre ++ r) post f (acc ++ [lenN pre]) Ht); [|rewrite lenN_app; lia|lia].
     rewrite <- app_assoc. reflexivity.
 Qed.
+
+(* ---------- add_note's bookkeeping: the adding accessor records exactly the start positions ---------- *)
+From ElfioV Require Import SectionData_proofs.
+Section Adds.
+  Variable junk : N -> N.
+  Variable xe : bool.
+
+  Fixpoint note_adds (e : endian) (s : section) (starts : list N) (ns : list note3) : res (section * list N) :=
+    match ns with
+    | [] => Ok (s, starts)
+    | n :: t => '(s1, st1) <- note_add_sec junk xe e s starts (fst (fst n)) (snd (fst n)) (snd n) ;; note_adds e s1 st1 t
+    end.
+
+  Theorem note_adds_spec e : forall ns s starts,
+    Inv s -> sh_size s + lenN (concat (map (rec3 e) ns)) < size_bound (s_cls s) ->
+    exists s' , note_adds e s starts ns = Ok (s', starts ++ starts_from e (sh_size s) ns) /\
+      Inv s' /\ contents s' = contents s ++ concat (map (rec3 e) ns) /\ s_cls s' = s_cls s.
+  Proof.
+    induction ns as [|[[ty name] desc] t IH]; intros s starts HI Hb; cbn [note_adds map concat starts_from].
+    - exists s. rewrite !app_nil_r. auto.
+    - cbn [fst snd]. unfold note_add_sec. cbn [map concat] in Hb. rewrite lenN_app in Hb.
+      change (rec3 e (ty, name, desc)) with (enc_note e ty name desc) in *.
+      destruct (append_data_spec junk xe s (enc_note e ty name desc) HI ltac:(lia)) as (s1 & -> & I1 & C1 & K1 & T1 & S1).
+      cbn [bind].
+      assert (Z1 : sh_size s1 = sh_size s + lenN (enc_note e ty name desc)).
+      { rewrite <- (lenN_contents s1 I1), C1, lenN_app, (lenN_contents s HI). reflexivity. }
+      destruct (IH s1 (starts ++ [sh_size s]) I1 ltac:(rewrite K1, Z1; lia)) as (s' & -> & I' & C' & K').
+      exists s'. split; [rewrite <- app_assoc, Z1; reflexivity|]. split; [exact I'|].
+      split; [rewrite C', C1, <- app_assoc; reflexivity|congruence].
+  Qed.
+End Adds.
